@@ -9,10 +9,11 @@
    touches process state is get_handler.  An analysis is therefore modelled as a program that may
    ask for handler modules, adaptively (which module it asks for next may depend on what the
    previous handlers answered: wrappers delegate), and finally returns (action, reason). *)
-From DippyV Require Import Base.Str Base.Verdict.
+From DippyV Require Import Base.Str Base.Verdict Gen.Tables.
 
 Inductive hmode := HClaude | HGemini | HCursor.
-Definition maxsize : nat := 32.
+(* regenerated from the decorator of _load_handler on every run (32 today) *)
+Definition maxsize : nat := LRU_MAXSIZE.
 
 Section Cache.
   Variable value : Type.                 (* an imported handler module (or None after ImportError) *)
